@@ -109,6 +109,8 @@ def lns[T](
     best_solution, best_obj = current, current_obj
     best_iter = 0
 
+    iteration = 0  # stays 0 when max_iter is 0 (the loop body never runs)
+
     for iteration in range(1, max_iter + 1):
         partial = destroy(current, rng)
         candidate = repair(partial, rng)
@@ -205,6 +207,8 @@ def alns[T](
     current_obj = evaluate(current)
     best_solution, best_obj = current, current_obj
     best_iter = 0
+
+    iteration = 0  # stays 0 when max_iter is 0 (the loop body never runs)
 
     for iteration in range(1, max_iter + 1):
         d_idx = select_weighted(d_weights)
